@@ -163,18 +163,39 @@ type Outs = Vec<Option<(f64, f64)>>;
 /// the real batch driver
 fn run_batch(frames: &[(i64, Vec<u8>)], reference: Option<(i64, i64)>, upd: bool, d1090: bool) -> Option<Outs> {
     guarded(|| {
-        let mut res: Vec<TimedMessage> = frames
-            .iter()
-            .map(|(t, f)| TimedMessage {
-                timestamp: *t as f64 / TICKS as f64,
+        // The batch driver gets what a recording holds: between the extended squitters, records of the SAME
+        // aircraft that are no extended squitter (DF11 all-call reply, DF4 altitude reply) and records that did
+        // not decode (`message: None`).  It must skip them; the caller-side loop below never sees them, and the
+        // two must still agree bit for bit.  (Not part of the op line: they are no reports.)
+        let mut res: Vec<TimedMessage> = vec![];
+        let mut is_report: Vec<bool> = vec![];
+        for (k, (t, f)) in frames.iter().enumerate() {
+            let timestamp = *t as f64 / TICKS as f64;
+            if k % 4 == 1 {
+                let other: Vec<u8> = match (k / 4) % 3 {
+                    0 => vec![0x5d, f[1], f[2], f[3], 0, 0, 0],  // DF11, CA=5, the aircraft's address
+                    1 => vec![0x20, 0x00, 0x05, 0x38, f[1], f[2], f[3]], // DF4
+                    _ => vec![],
+                };
+                let message = if other.is_empty() { None } else { Message::try_from(other.as_slice()).ok() };
+                res.push(TimedMessage { timestamp, frame: other, message, metadata: vec![], decode_time: None });
+                is_report.push(false);
+            }
+            res.push(TimedMessage {
+                timestamp,
                 frame: f.clone(),
                 message: Some(Message::try_from(f.as_slice()).expect("frame decodes")),
                 metadata: vec![],
                 decode_time: None,
-            })
-            .collect();
+            });
+            is_report.push(true);
+        }
         decode_positions(&mut res, to_position(reference), &updater(upd, d1090));
-        res.iter().map(|m| attached(m.message.as_ref().unwrap()).expect("extended squitter")).collect()
+        res.iter()
+            .zip(&is_report)
+            .filter(|(_, r)| **r)
+            .map(|(m, _)| attached(m.message.as_ref().unwrap()).expect("extended squitter"))
+            .collect()
     })
 }
 
@@ -942,6 +963,88 @@ fn gen_air_alias(rng: &mut Rng, tab: &[(i128, u32)]) -> Hist {
     Hist { upd: false, d1090: false, reference: None, reps }
 }
 
+/// the polar cap (|lat| > 87 deg: NL = 1, the odd grid has NL - 1 = 0 longitude zones, `d_lon` falls back to the
+/// whole circle) and latitudes beyond the pole.
+///   0: a flight over the pole at speed (the longitude turns by 180 deg), reports twice a second;
+///   1: one address, two places — a fix in the cap, 12-170 s of silence, then a report from 3.0-3.7 deg
+///      (airborne) further from the pole: the candidate latitude nearest to the old fix lies BEYOND the pole
+///      (|lat| > 90) and must be refused; or less than 10 s of silence (an inconsistent even/odd pair);
+///   2: taxiing at 87.2-88.5 deg with the receiver within 10 NM (surface zones of the cap: 90/1 and 90 deg);
+///   3: surface reports with a receiver reference at 89.55-89.75 deg and the vehicle 0.8 deg nearer the equator:
+///      the nearest surface candidate lies beyond the pole.
+fn gen_polar(rng: &mut Rng, tab: &[(i128, u32)], variant: u64) -> Hist {
+    let base = base_ticks(rng);
+    let addr = random_addr(rng, &[]);
+    let sgn = if rng.chance(1, 2) { 1.0 } else { -1.0 };
+    let t0 = base as f64 / TICKS as f64;
+    let lon = deg(random_lon(rng));
+    let burst = |rng: &mut Rng, f: &Flight, start: i64, n: usize, reps: &mut Vec<Rep>| -> i64 {
+        let mut t = start;
+        let mut p = rng.below(2) as u32;
+        for _ in 0..n {
+            reps.push(f.report(tab, t, p));
+            p ^= 1;
+            t += rng.range(TICKS * 2 / 5, TICKS * 3 / 5);
+        }
+        t
+    };
+    let mut reps = vec![];
+    let mut reference = None;
+    match variant % 4 {
+        0 => {
+            let kt = 400.0 + rng.f64() * 300.0;
+            // 0..8 s of flight before the pole, heading straight or almost straight at it
+            let d = kt * KT_DEG_PER_S * rng.f64() * 8.0;
+            let start = (sgn * (90.0 - d), lon);
+            let brg = (if sgn > 0.0 { 0.0 } else { 180.0 }) + (rng.f64() - 0.5) * if rng.chance(1, 2) { 0.0 } else { 20.0 };
+            let f = Flight { addr, legs: vec![leg_from(t0, start, brg, kt, false, false)], df18: false };
+            let n = 10 + rng.below(24) as usize;
+            burst(rng, &f, base, n, &mut reps);
+        }
+        1 => {
+            let l0 = sgn * (87.5 + rng.f64() * 1.4);
+            let f = Flight { addr, legs: vec![leg_from(t0, (l0, lon), rng.f64() * 360.0, random_kt(rng), false, false)], df18: false };
+            let n1 = 3 + rng.below(4) as usize;
+            let t = burst(rng, &f, base, n1, &mut reps);
+            // 1 in 2: less than 10 s — the first report from the second place is then PAIRED with a report from
+            // the first one; such a pair decodes to anything, often to a latitude outside [-90, 90], which the
+            // pair decoding must refuse.  No aircraft does this (two transponders, one address): the reports
+            // from the second place carry no truth, the oracle does not judge them (correspondence only).
+            let paired = rng.chance(1, 2);
+            let gap = if paired { rng.range(TICKS / 2, 9 * TICKS) } else { rng.range(12 * TICKS, 170 * TICKS) };
+            // the second place: on the same meridian (or any other), 3.0-3.7 deg nearer the equator
+            let l1 = l0 - sgn * (3.0 + rng.f64() * 0.7);
+            let lon1 = if rng.chance(1, 2) { lon } else { deg(random_lon(rng)) };
+            let g = Flight { addr, legs: vec![leg_from(t0, (l1, lon1), rng.f64() * 360.0, random_kt(rng), false, false)], df18: false };
+            let n2 = 1 + rng.below(4) as usize;
+            let k0 = reps.len();
+            burst(rng, &g, t + gap, n2, &mut reps);
+            if paired {
+                for r in &mut reps[k0..] {
+                    r.truth = None;
+                }
+            }
+        }
+        2 => {
+            let l0 = sgn * (87.2 + rng.f64() * 1.3);
+            let f = Flight { addr, legs: vec![leg_from(t0, (l0, lon), rng.f64() * 360.0, 5.0 + rng.f64() * 25.0, true, false)], df18: false };
+            let (la, lo) = destination(l0, lon, rng.f64() * 360.0, rng.f64() * 10.0 / 60.0);
+            reference = Some((clamp_lat(units(la)), wrap_lon(units(lo))));
+            let n = 6 + rng.below(12) as usize;
+            burst(rng, &f, base, n, &mut reps);
+        }
+        _ => {
+            let lr = sgn * (89.55 + rng.f64() * 0.2);
+            reference = Some((clamp_lat(units(lr)), wrap_lon(units(lon))));
+            let l0 = lr - sgn * (0.78 + rng.f64() * 0.04);
+            let f = Flight { addr, legs: vec![leg_from(t0, (l0, lon), rng.f64() * 360.0, 5.0 + rng.f64() * 25.0, true, false)], df18: false };
+            let n = 2 + rng.below(5) as usize;
+            burst(rng, &f, base, n, &mut reps);
+        }
+    }
+    Hist { upd: false, d1090: false, reference, reps }
+}
+
 /// a report delivered late across a silence: reports of ONE parity only before the gap (so no position is
 /// established, and the 50 km gate has nothing to compare with), 12-170 s of silence, then the burst after the
 /// gap — with its first report (same parity) delivered BEFORE the last report heard before the gap (two
@@ -1275,6 +1378,10 @@ pub fn run(out: &mut Out, rng: &mut Rng, thorough: bool) {
     for _ in 0..200 * scale {
         let h = gen_late(rng, &tab);
         do_hist(out, rng, &tab, &h, "late");
+    }
+    for k in 0..80 * scale {
+        let h = gen_polar(rng, &tab, k as u64);
+        do_hist(out, rng, &tab, &h, "polar");
     }
     for _ in 0..500 * scale {
         let h = gen_arrival(rng, &tab, false, false, thorough);
